@@ -6,7 +6,7 @@
 // The package imports no cgo-dependent code and is built with CGO_ENABLED=0, so that the static
 // test binary can chroot into the sandbox of each case: a hostile path that does escape the
 // designated directory still cannot leave the sandbox. Without chroot permission the cases run
-// unjailed, 96 directories deeper, and the evidence says so (jail_active).
+// unjailed, 128 directories deeper, and the evidence says so (jail_active).
 package jailfam
 
 import (
@@ -18,6 +18,7 @@ import (
 	"path"
 	"path/filepath"
 	"runtime/debug"
+	"sort"
 	"strings"
 	"syscall"
 	"testing"
@@ -106,7 +107,7 @@ var (
 	rootDir    *os.File // the real root, opened before the first chroot
 	jailTried  bool
 	jailWorks  bool
-	unjailedFn = 96 // extra nesting when there is no jail
+	unjailedFn = 128 // extra nesting when there is no jail (see climbBound)
 )
 
 // enterJail chroots into dir. It returns false when chroot is not permitted.
@@ -307,12 +308,143 @@ func genEntry(t *rapid.T) tarEntry {
 }
 
 // genWriteThrough draws a link entry and an entry whose name passes through the link.
-func genWriteThrough(t *rapid.T) (tarEntry, tarEntry) {
+// With shared != "" a quarter of the links take that target string instead of a fresh one, so that
+// links of different depths (l, a/l, a/b/up) carry byte-identical targets.
+func genWriteThrough(t *rapid.T, shared string) (tarEntry, tarEntry) {
 	ln := rapid.SampledFrom([]string{"l", "a/l", "up", "a/b/up", "x/l"}).Draw(t, "wt_link_name")
 	link := tarEntry{Name: ln, Type: rapid.SampledFrom([]string{"sym", "sym", "hard"}).Draw(t, "wt_type"), Link: genPath(t, "wt_target")}
+	if shared != "" && rapid.IntRange(0, 3).Draw(t, "wt_shared") == 0 {
+		link.Link = shared
+	}
 	through := genEntry(t)
 	through.Name = ln + "/" + genSegs(t, "wt_rest", 3)
 	return link, through
+}
+
+// ---------------------------------------------------------------------------------------
+// Shared link targets. Whether a relative link target leaves the designated directory depends on
+// the directory of the link, not on the target string alone: "../.." is usr/ for usr/lib/app/up and
+// the parent of the unpack directory for opt/up. A group is 2..4 link entries (symlinks and hard
+// links) at depths 1..5 that carry one byte-identical target string from sharedTargetPool, in a
+// chosen stream order (deepest first, shallowest first, as drawn), inside one layer or spread over
+// the layers in stream order, each usually followed by a regular entry written through it
+// (<link>/escaped/<file>).
+//
+// Bounds (safety of the host, see climbBound): a pool string has at most three ".." segments, the
+// names of a group have none, a group has at most four links.
+
+var sharedTargetPool = []string{
+	"..", "../..", "../..", "../../..", "../x", "../../x",
+	"../outside", "../../outside", "../../../outside", "../../target-evil", "../../tmp", "../../in", "../../target", "../../../5",
+	"./..", "./../..", "a/../../..", "a/../..", "../.", "../../.", "..//..", "../../",
+}
+
+var (
+	sharedDirs  = []string{"usr", "lib", "app", "opt", "srv", "v1"} // never the name of a link
+	sharedLeafs = []string{"up", "lnk", "back"}                      // never the name of a directory
+)
+
+// streamLayers lists the layer indices in the order in which the loader reads them: UnpackSquashed
+// flattens the image with mutate.Extract (top layer first), the flat tar of
+// UnpackSquashedFromTarball and the layer-scanning loaders go bottom-up.
+func streamLayers(loader string, nl int) []int {
+	ord := make([]int, nl)
+	for i := range ord {
+		ord[i] = i
+		if loader == "unpack" {
+			ord[i] = nl - 1 - i
+		}
+	}
+	return ord
+}
+
+func genSharedTargetGroup(t *rapid.T, c *imgCase, target string) {
+	nl := len(c.Layers)
+	k := rapid.IntRange(2, 4).Draw(t, "sg_links")
+	depths := make([]int, k)
+	depths[0] = rapid.IntRange(1, 5).Draw(t, "sg_depth")
+	// the second depth differs from the first by construction
+	d := rapid.IntRange(1, 4).Draw(t, "sg_depth")
+	if d >= depths[0] {
+		d++
+	}
+	depths[1] = d
+	for i := 2; i < k; i++ {
+		depths[i] = rapid.IntRange(1, 5).Draw(t, "sg_depth")
+	}
+	switch rapid.SampledFrom([]string{"deep_first", "deep_first", "shallow_first", "as_drawn"}).Draw(t, "sg_order") {
+	case "deep_first":
+		sortInts(depths, true)
+	case "shallow_first":
+		sortInts(depths, false)
+	}
+	type item struct {
+		e    tarEntry
+		link int // index of the link the item belongs to
+	}
+	var items []item
+	used := map[string]bool{}
+	for i, depth := range depths {
+		var segs []string
+		for j := 0; j < depth-1; j++ {
+			segs = append(segs, rapid.SampledFrom(sharedDirs).Draw(t, "sg_dir"))
+		}
+		segs = append(segs, rapid.SampledFrom(sharedLeafs).Draw(t, "sg_leaf"))
+		name := strings.Join(segs, "/")
+		if used[name] {
+			continue
+		}
+		used[name] = true
+		typ := rapid.SampledFrom([]string{"sym", "sym", "hard"}).Draw(t, "sg_type")
+		items = append(items, item{tarEntry{Name: name, Type: typ, Link: target}, i})
+	}
+	// write-through entries: after their link (seven of eight) or anywhere before it
+	links := append([]item{}, items...)
+	for _, lk := range links {
+		if rapid.IntRange(0, 3).Draw(t, "sg_through") == 0 {
+			continue
+		}
+		ln := lk.e.Name
+		w := tarEntry{Name: ln + "/escaped/" + rapid.SampledFrom([]string{"pwned.txt", "canary.txt", "d/f"}).Draw(t, "sg_file"), Type: "reg", Body: "written through " + ln + "\n"}
+		if rapid.IntRange(0, 9).Draw(t, "sg_through_dir") == 0 {
+			w = tarEntry{Name: ln + "/escaped", Type: "dir"}
+		}
+		at := 0
+		for j := range items {
+			if items[j].link == lk.link && items[j].e.Name == ln {
+				at = j + 1
+			}
+		}
+		pos := 0
+		if rapid.IntRange(0, 7).Draw(t, "sg_through_before") == 0 {
+			pos = rapid.IntRange(0, at-1).Draw(t, "sg_through_at")
+		} else {
+			pos = rapid.IntRange(at, len(items)).Draw(t, "sg_through_at")
+		}
+		items = append(items[:pos], append([]item{{w, lk.link}}, items[pos:]...)...)
+	}
+	// an anchor that makes "../x" and "../../x" exist for the links one and two directories deep
+	if rapid.IntRange(0, 3).Draw(t, "sg_anchor") == 0 {
+		items = append([]item{{tarEntry{Name: "x/keep.txt", Type: "reg", Body: "x"}, -1}}, items...)
+	}
+	// placement: one layer, or spread over the layers without changing the stream order
+	ord := streamLayers(c.Loader, nl)
+	slot := rapid.IntRange(0, nl-1).Draw(t, "sg_slot")
+	spread := nl > 1 && rapid.Bool().Draw(t, "sg_spread")
+	for _, it := range items {
+		if spread && slot < nl-1 {
+			slot += rapid.IntRange(0, 1).Draw(t, "sg_next_layer")
+		}
+		c.Layers[ord[slot]] = append(c.Layers[ord[slot]], it.e)
+	}
+}
+
+func sortInts(a []int, descending bool) {
+	for i := 1; i < len(a); i++ {
+		for j := i; j > 0 && ((descending && a[j] > a[j-1]) || (!descending && a[j] < a[j-1])); j-- {
+			a[j], a[j-1] = a[j-1], a[j]
+		}
+	}
 }
 
 func genImgCase(t *rapid.T) imgCase {
@@ -330,10 +462,24 @@ func genImgCase(t *rapid.T) imgCase {
 	nl := rapid.IntRange(1, 3).Draw(t, "layers")
 	c.Layers = make([][]tarEntry, nl)
 	n := rapid.IntRange(1, 7).Draw(t, "entries")
-	for i := 0; i < n; i++ {
+	// the shared-link-target shape: in two of five cases one group of links that carry the same
+	// relative target string at different depths, placed before, between or after the other entries
+	shared := ""
+	groupAt := -1
+	if rapid.IntRange(0, 4).Draw(t, "shared_group") < 2 {
+		shared = rapid.SampledFrom(sharedTargetPool).Draw(t, "shared_target")
+		groupAt = rapid.IntRange(0, n).Draw(t, "shared_group_at")
+	}
+	for i := 0; i <= n; i++ {
+		if i == groupAt {
+			genSharedTargetGroup(t, &c, shared)
+		}
+		if i == n {
+			break
+		}
 		li := rapid.IntRange(0, nl-1).Draw(t, "layer")
 		if rapid.IntRange(0, 2).Draw(t, "writethrough") == 0 {
-			a, b := genWriteThrough(t)
+			a, b := genWriteThrough(t, shared)
 			lj := rapid.IntRange(0, nl-1).Draw(t, "layer2")
 			if rapid.Bool().Draw(t, "swap") {
 				a, b = b, a
@@ -534,7 +680,164 @@ func nonTrivial(c imgCase) (bool, []string) {
 			}
 		}
 	}
-	return nt, classes
+	return nt, append(classes, sharedTargetClasses(c)...)
+}
+
+// existsOutsideTarget: p (in the name space of a virtual sandbox root) is something that exists in
+// every sandbox and is not the target directory or inside it.
+func existsOutsideTarget(p string) bool {
+	if existingOutside[p] || p == "/w/1/2/3/4/5/target-evil" {
+		return true
+	}
+	if path.Base(p) == "canary.txt" { // one at the sandbox root and in each directory of nest
+		d := path.Dir(p)
+		return d == "/" || (existingOutside[d] && strings.HasPrefix("/w/1/2/3/4/5", d))
+	}
+	return p == "/w/1/2/3/4/5/outside/secret.txt" || p == "/w/1/2/3/4/5/target-evil/keep"
+}
+
+// sharedTargetClasses labels the pairs of link entries that carry a byte-identical relative target
+// containing ".." at different depths of the tree. Positions are those of the stream the loader
+// reads (streamLayers). Every label is counted once per case.
+func sharedTargetClasses(c imgCase) []string {
+	type lk struct {
+		pos, layer, depth int
+		name, typ, link   string
+		lexOut, exists    bool
+	}
+	var links []lk
+	var names []string // cleaned plain names of all entries, in stream order
+	pos := 0
+	for _, li := range streamLayers(c.Loader, len(c.Layers)) {
+		for _, e := range c.Layers[li] {
+			pos++
+			if strings.Contains(e.Name, "${") || strings.HasPrefix(e.Name, "/") {
+				names = append(names, "")
+				continue
+			}
+			cn := path.Clean(e.Name)
+			names = append(names, cn)
+			if e.Type != "sym" && e.Type != "hard" {
+				continue
+			}
+			if strings.Contains(e.Link, "${") || strings.HasPrefix(e.Link, "/") || cn == ".." || strings.HasPrefix(cn, "../") || cn == "." {
+				continue
+			}
+			hasDD := false
+			for _, sg := range strings.Split(e.Link, "/") {
+				hasDD = hasDD || sg == ".."
+			}
+			if !hasDD {
+				continue
+			}
+			res := path.Join(path.Dir(cn), e.Link)
+			l := lk{pos: pos, layer: li, depth: strings.Count(cn, "/") + 1, name: cn, typ: e.Type, link: e.Link}
+			l.lexOut = res == ".." || strings.HasPrefix(res, "../")
+			l.exists = l.lexOut && existsOutsideTarget(path.Join("/w/1/2/3/4/5/target", res))
+			links = append(links, l)
+		}
+	}
+	set := map[string]bool{}
+	const pfx = "shared_link_target_diff_depth"
+	for i := range links {
+		for j := i + 1; j < len(links); j++ {
+			a, b := links[i], links[j] // a precedes b in the stream
+			if a.link != b.link || a.depth == b.depth || a.name == b.name {
+				continue
+			}
+			set[pfx] = true
+			set["shared_link_target:"+a.link] = true
+			if a.depth > b.depth {
+				set[pfx+"_deep_first"] = true
+			} else {
+				set[pfx+"_shallow_first"] = true
+			}
+			if a.typ == "hard" || b.typ == "hard" {
+				set[pfx+"_hardlink"] = true
+			}
+			if a.typ == "sym" || b.typ == "sym" {
+				set[pfx+"_symlink"] = true
+			}
+			if a.layer != b.layer {
+				set[pfx+"_cross_layer"] = true
+			} else {
+				set[pfx+"_same_layer"] = true
+			}
+			var esc *lk
+			switch {
+			case !a.lexOut && b.lexOut:
+				esc = &b
+				set[pfx+"_harmless_then_escaping"] = true
+				if b.typ == "hard" {
+					set[pfx+"_harmless_then_escaping_hardlink"] = true
+				}
+				if a.layer != b.layer {
+					set[pfx+"_harmless_then_escaping_cross_layer"] = true
+				}
+				if b.exists {
+					set[pfx+"_harmless_then_escaping_to_existing"] = true
+				}
+			case a.lexOut && !b.lexOut:
+				esc = &a
+				set[pfx+"_escaping_then_harmless"] = true
+			case a.lexOut && b.lexOut:
+				set[pfx+"_both_escaping"] = true
+			default:
+				set[pfx+"_both_harmless"] = true
+			}
+			if esc != nil {
+				for k, n := range names {
+					if strings.HasPrefix(n, esc.name+"/") {
+						set[pfx+"_written_through_escaping"] = true
+						if k+1 > esc.pos {
+							set[pfx+"_written_through_escaping_later"] = true
+						}
+					}
+				}
+			}
+		}
+	}
+	for _, l := range links {
+		if set["shared_link_target:"+l.link] {
+			set[fmt.Sprintf("shared_link_depth:%d", l.depth)] = true
+		}
+	}
+	out := make([]string, 0, len(set))
+	for k := range set {
+		out = append(out, k)
+	}
+	sort.Strings(out)
+	return out
+}
+
+// climbBound is an upper bound of the number of directory levels above the target that any path
+// operation of a loader can reach with the entries of c, however it follows the links it has
+// created itself: a link is created at most (".." segments of its name) above the highest level
+// reachable before it and reaches at most (".." segments of its target) above that; the entry
+// finally written adds the ".." segments of its own name. The generator stays below
+// 7*12 + 4*3 + 4 = 100 < unjailedFn + len(nest).
+func climbBound(c imgCase) int {
+	dd := func(s string) int {
+		n := 0
+		for _, sg := range strings.Split(virt(s), "/") {
+			if sg == ".." {
+				n++
+			}
+		}
+		return n
+	}
+	sum, maxName := 0, 0
+	for _, l := range c.Layers {
+		for _, e := range l {
+			if n := dd(e.Name); n > maxName {
+				maxName = n
+			}
+			if e.Type == "sym" || e.Type == "hard" {
+				sum += dd(e.Name) + dd(e.Link)
+			}
+		}
+	}
+	return sum + maxName
 }
 
 // ---------------------------------------------------------------------------------------
@@ -589,6 +892,9 @@ func propImage(c imgCase) (o ev.Outcome, err error) {
 			jailActive = 0
 			col.SetExtra("jail_active", false)
 			col.Note("chroot not available: image cases run unjailed, %d directories below the sandbox root", unjailedFn+len(nest))
+		}
+		if b := climbBound(c); b >= unjailedFn+len(nest) {
+			return o, fmt.Errorf("harness: refusing to run a case unjailed whose links could climb %d levels (sandbox depth %d)", b, unjailedFn+len(nest))
 		}
 		for i := 0; i < unjailedFn; i++ {
 			R = filepath.Join(R, "n")
